@@ -80,9 +80,14 @@ def benign(only_prop=None, only_patch=None, jobs=3):
                 env = dict(os.environ, FVC_REPO=scratch, FVC_EVIDENCE_DIR=os.path.join(scratch, "evidence"), FVC_REPLAY_DIR=os.path.join(scratch, "replays"))
                 r = subprocess.run([os.path.join(here, "check"), prop, "--tier", "quick"], capture_output=True, text=True, env=env)
                 notes = [l for l in r.stdout.splitlines() if l.startswith(("VIOLATION", "UNDECIDED", "CHECKER"))][:2]
-                out.append(f"BENIGN {m['patch']} / {prop}: exit={r.returncode} {'ok' if r.returncode == 0 else 'ALARM ' + ' | '.join(n[:200] for n in notes)}")
-                if r.returncode != 0:
+                if r.returncode == 0:
+                    verdict = "ok"
+                elif r.returncode != 1 and m.get("undecided_ok") and not any(n.startswith("VIOLATION") for n in notes):
+                    verdict = "undecided (expected: " + m["undecided_ok"][:60] + "...)"
+                else:
+                    verdict = ("FALSE ALARM " if r.returncode == 1 else "UNDECIDED ") + " | ".join(n[:200] for n in notes)
                     bad += 1
+                out.append(f"BENIGN {m['patch']} / {prop}: exit={r.returncode} {verdict}")
         finally:
             shutil.rmtree(scratch, ignore_errors=True)
         return out, bad
@@ -94,7 +99,7 @@ def benign(only_prop=None, only_patch=None, jobs=3):
             for l in out:
                 print(l, flush=True)
             total += bad
-    print(f"BENIGN: {total} alarms")
+    print(f"BENIGN: {total} alarms (a run that exits 1 on a behaviour-preserving patch, or an undecided run that the index does not expect)")
     return 0 if total == 0 else 3
 
 
